@@ -221,12 +221,13 @@ example : (step cfg0 (run cfg0 2 8 [.recKept 1 10 3 0 0 0 1, .recDrop 1, .adv 30
 example : (step cfg0 (run cfg0 2 8 [.recKept 1 10 3 0 0 0 1, .recDrop 1, .adv 3000000001]) (.checkSpan 1 0 false)).2
     = .ans (.kept 10 3 1 0 0 2) := by decide
 -- 8 slots: the 8th insert fills the filter; the next maintenance rotates and the first id is forgotten
+-- (once the recent-drop TTL has passed too)
 example : rotates cfg0 (run cfg0 2 8 ((List.range 8).map .recDrop ++ [.drain { k := 8 }])) (.maintain {}) = true := by
   decide
 example : rotates cfg0 (run cfg0 2 8 ((List.range 7).map .recDrop ++ [.drain { k := 7 }])) (.maintain {}) = false := by
   decide
 example : (step cfg0 (run cfg0 2 8 ((List.range 5).map .recDrop ++ [.maintain { k := 5 }] ++
-    [.recDrop 5, .recDrop 6, .recDrop 7, .maintain { k := 3 }])) (.checkTrace 0 false)).2 = .ans .notFound := by decide
+    [.recDrop 5, .recDrop 6, .recDrop 7, .maintain { k := 3 }, .adv 3000000001])) (.checkTrace 0 false)).2 = .ans .notFound := by decide
 example : (step cfg0 (run cfg0 2 8 ((List.range 5).map .recDrop ++ [.maintain { k := 5 }] ++
     [.recDrop 5, .recDrop 6, .recDrop 7, .maintain { k := 3 }])) (.checkTrace 7 false)).2 = .ans .dropped := by decide
 -- resize keeps the newest
